@@ -34,6 +34,11 @@ def sliced_inputs(thorough):
         rot = lambda x: ((x << r) | (x >> (16 - r))) & 0xFFFF
         for event in (0x0000, 0xFFFF, 0x5A5A):
             out.append((rot(event), rot(SLICE["old"]), rot(SLICE["new"]), rot(SLICE["ptr"]), rot(SLICE["ntr"])))
+    # uniform words: every bit position carries the same combination, so that tests on the *whole word* (say, "no selected
+    # bit changed" short cuts) meet each combination with nothing else going on
+    for m in range(32):
+        out.append(tuple(0xFFFF if (m >> k) & 1 else 0 for k in range(5)))
+    out += [(0, 0x0005, 0x0000, 0xFF00, 0x00F0), (0x0100, 0x0000, 0x0005, 0x0F00, 0xF000)]
     out += [(0, 0, 0xFFFF, 0xFFFF, 0), (0, 0xFFFF, 0, 0, 0xFFFF), (0, 0, 0xFFFF, 0, 0xFFFF), (0, 0xFFFF, 0, 0xFFFF, 0), (0x8000, 0x7FFF, 0x8000, 0x8000, 0x7FFF), (0, 0x1234, 0x1234, 0xFFFF, 0xFFFF)]
     return out
 
